@@ -4,6 +4,7 @@ import PdfModel.Lemmas.TotalParser
 import PdfModel.Lemmas.TotalContent
 import PdfModel.Lemmas.TotalContentEI
 import PdfModel.Lemmas.TotalXrefTable
+import PdfModel.Lemmas.TotalXrefStream
 import PdfModel.Lemmas.TotalOpen
 import PdfModel.Lemmas.TotalGlue
 import PdfModel.Props.C02
@@ -320,19 +321,45 @@ theorem inline_image_ei_total {R : Type} (env : Env R) (henv : EnvOk env) (buf :
 -- ===================================================================================================
 -- 5. cross-reference sections
 
-/-- `read_xref_and_trailer_at` (the `xref` table reader, and the dispatch to the stream reader up to the typed
-    conversion): `Ok` or `Err`; the entry loop runs at most `len` rounds whatever count the subsection header
-    claims (up to 2^32 − 1); a table's sections hold `Free` / `Raw` entries only, which is what the merge needs. -/
-theorem read_xref_at_total {R : Type} (env : Env R) (henv : EnvOk env) (buf : Buf) (hs : RealSize buf)
-    (pos : Nat) (h : pos ≤ buf.size) :
-    readXrefAt env buf pos ≠ .panic ∧ readXrefAt env buf pos ≠ .oof ∧
-    ∀ secs d p, readXrefAt env buf pos = .ok (.table secs d, p) → Xref.pairsOK (Xref.secPairs secs) := by
-  rcases readXrefAt_spec env henv buf hs pos h with he | ⟨r, p, hp, _, hsub⟩
-  · rw [he]; exact ⟨by simp, by simp, fun _ _ _ hh => by cases hh⟩
-  · rw [hp]
-    refine ⟨by simp, by simp, fun secs d p' hh => ?_⟩
+/-- `read_xref_and_trailer_at`, BOTH section formats (the one model of them: `Model/XrefTable` with its stream
+    branch `Model/XrefStreamRead`, over the row reader `Model/XrefStream`), strict and tolerant: `Ok` or `Err` for every
+    buffer and cursor; the entry loop of a table runs at most `len / 3` rounds whatever count the subsection
+    header claims (up to 2^32 − 1); the sections hold `Free` / `Raw` / `Stream` entries only, which is what the merge
+    needs. The typed reader of the stream dictionary (`Stream::<XRefInfo>`, see `derived_reader_total`) and the data
+    of the stream (`Resolve::stream_data` + filters) are parameters that return `Ok` or `Err`. -/
+theorem read_xref_at_total {R : Type} (env : Env R) (henv : EnvOk env) (typed : Dict R → Out XrefTable.XInfo)
+    (htyped : ∀ d, Ret (typed d)) (sdata : Dict R → StreamInner → Out (List UInt8)) (hdata : ∀ d i, Ret (sdata d i))
+    (allowErr : Bool) (buf : Buf) (hs : RealSize buf) (pos : Nat) (h : pos ≤ buf.size) :
+    XrefTable.readXrefAt env typed sdata allowErr buf pos ≠ .panic ∧
+    XrefTable.readXrefAt env typed sdata allowErr buf pos ≠ .oof ∧
+    ∀ secs d, XrefTable.readXrefAt env typed sdata allowErr buf pos = .ok (secs, d) → Xref.pairsOK (Xref.secPairs secs) := by
+  rcases XrefTable.readXrefAt_total env henv typed htyped sdata hdata allowErr buf hs pos h with he | ⟨subs, d, hr, hok⟩
+  · rw [he]; exact ⟨by simp, by simp, fun _ _ hh => by cases hh⟩
+  · rw [hr]
+    refine ⟨by simp, by simp, fun secs d' hh => ?_⟩
     cases hh
-    exact subsOk_pairsOK _ (hsub _ _ rfl)
+    exact subsOk_pairsOK _ hok
+
+/-- The classic table reader alone, with the progress that bounds its work: what `parse_xref_table_and_trailer`
+    returns lies strictly behind the cursor, and (`XrefTable.entryLoop_total`) `n` entries cost at least `3 n` bytes. -/
+theorem xref_table_total {R : Type} (env : Env R) (henv : EnvOk env) (buf : Buf) (hs : RealSize buf) (pos : Nat)
+    (h : pos ≤ buf.size) :
+    XrefTable.parseXrefTableAndTrailer env buf (XrefTable.defaultFuel buf) (defaultFuel buf) pos = .err ∨
+    ∃ subs d q, XrefTable.parseXrefTableAndTrailer env buf (XrefTable.defaultFuel buf) (defaultFuel buf) pos = .ok ((subs, d), q) ∧
+      pos < q ∧ q ≤ buf.size :=  by
+  rcases XrefTable.parseXrefTableAndTrailer_total env henv buf hs pos h with he | ⟨subs, d, q, hq, q1, q2, _⟩
+  · exact Or.inl he
+  · exact Or.inr ⟨subs, d, q, hq, q1, q2⟩
+
+/-- The row reader of cross-reference streams at byte level (the model `Props/C02` reads sections back with): the two
+    panic sites of `read_u64_from_stream` are unreachable behind its guards; a section never holds more entries than
+    the decoded data has bytes. -/
+theorem xref_stream_rows_total (first n : Nat) (width : List Nat) (data : List UInt8) (allowErr : Bool) :
+    Xref.parseSection first n width data allowErr = .err ∨
+    ∃ s rest, Xref.parseSection first n width data allowErr = .ok (s, rest) ∧ s.entries.length ≤ data.length := by
+  rcases Xref.parseSection_spec first n width data allowErr with he | ⟨s, rest, hr, _, _, hl⟩
+  · exact Or.inl he
+  · exact Or.inr ⟨s, rest, hr, hl⟩
 
 /-- The section reader of cross-reference *streams* (`parse_xref_section_from_stream`, the `/Index` loop), for
     every width triple, count and amount of data, strict and tolerant (imported from the C14 package). -/
@@ -345,8 +372,8 @@ theorem xref_stream_sections_total (tolerant : Bool) (width : List Nat) (pairs :
 -- 6. the open path
 
 /-- **`open_core_total`.** For every byte string `buf`, whatever token-level parsers `P` the structural model is
-    run with, provided they are total (`Offsets.Total P` — met by the byte-level models of this package:
-    `table_parsers_total`), and for both option sets:
+    run with, provided they are total on the suffixes of the file (`Offsets.TotalOn P len` — met by the byte-level
+    models: `core_parsers_total`), and for both option sets:
 
     * the header search and the `startxref` search return (C17);
     * loading the chain of cross-reference sections — `startxref`, every `/Prev`, each section merged into the
@@ -361,7 +388,7 @@ theorem xref_stream_sections_total (tolerant : Bool) (width : List Nat) (pairs :
     What is *not* in this theorem (glue exercised only by the walker): the derive-generated typed loaders that sit
     between these pieces (`Stream::<XRefInfo>`, `ObjectStream`, `Catalog`, `Page`, fonts …), third-party
     decoders (they are the parameter `X` of the filter model), allocation sizes, the native stack. -/
-theorem open_core_total {V T : Type} (P : Offsets.Parsers V T) (hP : Offsets.Total P) (buf : List UInt8) :
+theorem open_core_total {V T : Type} (P : Offsets.Parsers V T) (buf : List UInt8) (hP : Offsets.TotalOn P buf.length) :
     (Offsets.locateStart buf).Returns ∧ (Offsets.locateXref buf).Returns ∧
     (Offsets.openFile P (buf.length + 2) buf).Returns ∧
     (∀ start, (Offsets.loadTable P (buf.length + 2) buf start).Returns) ∧
@@ -381,11 +408,11 @@ theorem open_core_total {V T : Type} (P : Offsets.Parsers V T) (hP : Offsets.Tot
         Widths.interp w items ≠ .panic ∧ Widths.interp w items ≠ .oof) ∧
     (∀ bs : List UInt8, CMap.parseCMap bs ≠ .oof) := by
   refine ⟨(Offsets.locate_total buf).1, (Offsets.locate_total buf).2,
-    Offsets.openFile_returns P hP buf _ (Nat.le_refl _),
-    fun start => Offsets.loadTable_returns P hP buf start _ (Nat.le_refl _),
-    fun start t flags id => Offsets.resolveRef_returns_top P hP buf start t _ flags id (Nat.le_refl _),
+    Offsets.openFile_returns P buf hP _ (Nat.le_refl _),
+    fun start => Offsets.loadTable_returns P buf hP start _ (Nat.le_refl _),
+    fun start t flags id => Offsets.resolveRef_returns_top P buf hP start t _ flags id (Nat.le_refl _),
     fun o => Offsets.rawData_returns buf o,
-    fun start => Offsets.scan_returns P hP buf start,
+    fun start => Offsets.scan_returns P buf hP start,
     fun n first data i => C11.member_total n first data i,
     fun X fs data => Enc.decodeChain_never_panics X fs data,
     fun tolerant width pairs data => C14.xref_sections_total 64 tolerant width pairs data [],
@@ -398,20 +425,52 @@ theorem merge_total (size : Nat) (h : List (List Xref.Sub)) (hp : Xref.pairsOK (
     ∃ t, Xref.mergeAll (Xref.newTable size) h.reverse = .ok t ∧ t.length = size + 1 :=
   Xref.merge_total size h hp
 
-/-- **The hypotheses of `open_core_total` are met by the byte-level models.** The instance of the parser
-    parameters built from `read_xref_and_trailer_at`, `parse_indirect_object` and `parse` (`Model/OpenGlue`) is
-    total for every total resolver — in both option sets (`env.allowMissingEndobj`). -/
-theorem table_parsers_total {R : Type} (env : Env R) (henv : EnvOk env) : Offsets.Total (tableOnlyParsers env) :=
-  tableOnlyParsers_total env henv
+/-- **The hypotheses of `open_core_total` are met by the byte-level models.** `Offsets.coreParsers` plugs together the
+    models that exist once each — `XrefTable.readXrefAndTrailerAt` with both section formats, `parse_indirect_object`,
+    `parse` (`Model/XrefFile`, `Model/XrefStreamRead`, `Model/OffsetsConcrete`) — and is total on every file a slice
+    can hold, strict and tolerant, for parameters (typed reader of the xref stream dictionary, stream data, filter
+    chain, `scan` items, resolver, decryption) that return `Ok` or `Err`. -/
+theorem core_parsers_total {R : Type} (env : Env R) (typed : Dict R → Out XrefTable.XInfo)
+    (sdata : Dict R → StreamInner → Out (List UInt8)) (allowErr : Bool)
+    (dec : Dict R → List UInt8 → Out (List UInt8)) (S : List UInt8 → List (Out (Offsets.Obj (Prim R)))) (n : Nat)
+    (hn : n ≤ Offsets.isizeMax) (hp : Offsets.ParamsOk env typed sdata dec S) :
+    Offsets.TotalOn (Offsets.coreParsers env typed sdata allowErr dec S n) n :=
+  Offsets.coreParsers_total env typed sdata allowErr dec S n hn hp
 
-/-- The composition on the concrete parsers: opening ANY byte string with the byte-level table reader and
-    resolving ANY object number returns. -/
-theorem open_core_total_concrete {R : Type} (env : Env R) (henv : EnvOk env) (buf : List UInt8) :
-    (Offsets.openFile (tableOnlyParsers env) (buf.length + 2) buf).Returns ∧
+/-- **The composition on the concrete parsers, both section formats.** Opening ANY byte string (header, `startxref`,
+    the `/Prev` walk over table and stream sections, merge) and resolving ANY object number through direct or
+    compressed storage returns `Ok` or `Err`. -/
+theorem open_core_total_concrete {R : Type} (env : Env R) (typed : Dict R → Out XrefTable.XInfo)
+    (sdata : Dict R → StreamInner → Out (List UInt8)) (allowErr : Bool)
+    (dec : Dict R → List UInt8 → Out (List UInt8)) (S : List UInt8 → List (Out (Offsets.Obj (Prim R))))
+    (hp : Offsets.ParamsOk env typed sdata dec S) (buf : List UInt8) (hn : buf.length ≤ Offsets.isizeMax) :
+    (Offsets.openFile (Offsets.coreParsers env typed sdata allowErr dec S buf.length) (buf.length + 2) buf).Returns ∧
     ∀ (start : Nat) (t : Xref.Table) (flags : Offsets.Flags) (id : Nat),
-      (Offsets.resolveRef (tableOnlyParsers env) buf start t (2 * t.length + 3) [] flags id).Returns := by
-  have h := open_core_total (tableOnlyParsers env) (table_parsers_total env henv) buf
+      (Offsets.resolveRef (Offsets.coreParsers env typed sdata allowErr dec S buf.length) buf start t
+        (2 * t.length + 3) [] flags id).Returns := by
+  have h := open_core_total _ buf (core_parsers_total env typed sdata allowErr dec S buf.length hn hp)
   exact ⟨h.2.2.1, h.2.2.2.2.1⟩
+
+/-- **… and on a well-formed chain it is the real `/Prev` walk** (`Props/C02.walk_visits_chain`, here for the concrete
+    parsers): totality says the walk always comes back; on a chain `newest :: older` of sections that the concrete
+    reader returns at their offsets, linked through `/Prev`, it comes back with exactly the merge of the chain,
+    newest first, and the newest trailer — using `older.length ≤ len` rounds of the loop. -/
+theorem open_walk_concrete {R : Type} (env : Env R) (typed : Dict R → Out XrefTable.XInfo)
+    (sdata : Dict R → StreamInner → Out (List UInt8)) (allowErr : Bool)
+    (dec : Dict R → List UInt8 → Out (List UInt8)) (S : List UInt8 → List (Out (Offsets.Obj (Prim R))))
+    (buf : List UInt8) (start fuel : Nat) (newest : Offsets.Rev (Dict R)) (older : List (Offsets.Rev (Dict R))) (size : Nat)
+    (hx : Offsets.locateXref buf = .ok newest.off) (hin : start + newest.off < buf.length)
+    (hfit : start + newest.off ≤ OffLex.usizeMax)
+    (hnew : (Offsets.coreParsers env typed sdata allowErr dec S buf.length).xrefAt (buf.drop (start + newest.off))
+        = .ok (newest.subs, newest.trailer))
+    (hsize : (Offsets.coreParsers env typed sdata allowErr dec S buf.length).sizeOf newest.trailer = .ok size)
+    (hmax : size ≤ Offsets.maxId)
+    (hread : ∀ r ∈ older, Offsets.ReadsAt (Offsets.coreParsers env typed sdata allowErr dec S buf.length) buf start r)
+    (hlink : Offsets.Linked (Offsets.coreParsers env typed sdata allowErr dec S buf.length) (newest :: older))
+    (hnd : (older.map (·.off)).Nodup) (hfuel : older.length ≤ fuel) :
+    Offsets.loadTable (Offsets.coreParsers env typed sdata allowErr dec S buf.length) fuel buf start
+      = Offsets.withTrailer newest.trailer (Xref.mergeAll (Xref.newTable size) ((newest :: older).map (·.subs))) :=
+  Xref.walk_visits_chain _ buf start fuel newest older size hx hin hfit hnew hsize hmax hread hlink hnd hfuel
 
 -- ===================================================================================================
 -- 7. non-vacuity, regression witnesses
@@ -466,10 +525,23 @@ example : (match inlineImage textEnv #[66, 73, 32, 47, 87, 32, 49, 32, 73, 68, 3
 def xrefSample : Buf :=
   "xref\n0 1\n0000000000 65535 f \n3 1\n0000000017 00000 n \ntrailer\n<</Size 4>>".toUTF8.data
 
-example : (match readXrefAt textEnv xrefSample 0 with
-    | .ok (.table secs _, _) => secs | _ => []) = [⟨0, [.free 0 65535]⟩, ⟨3, [.raw 17 0]⟩] := by decide +kernel
+def noTyped : Dict (List UInt8) → Out XrefTable.XInfo := fun _ => .err
+def noData : Dict (List UInt8) → StreamInner → Out (List UInt8) := fun _ _ => .err
 
-example : outTag (readXrefAt textEnv "xref\n0 4294967295\n0000000000 65535 f \ntrailer\n<<>>".toUTF8.data 0) = 1 := by
+example : (match XrefTable.readXrefAt textEnv noTyped noData false xrefSample 0 with
+    | .ok (secs, _) => secs | _ => []) = [⟨0, [.free 0 65535]⟩, ⟨3, [.raw 17 0]⟩] := by decide +kernel
+
+example : outTag (XrefTable.readXrefAt textEnv noTyped noData false
+    "xref\n0 4294967295\n0000000000 65535 f \ntrailer\n<<>>".toUTF8.data 0) = 1 := by
   decide +kernel
+
+/-- a cross-reference stream section: `/W [1 1 1]`, two rows (`Free 0 255`, `Raw 16 0`), the typed entries and the
+    data supplied the way the typed loader and `Resolve::stream_data` would -/
+def xrefStmSample : Buf :=
+  "5 0 obj\n<</Type/XRef/Size 2/W[1 1 1]/Length 6>>\nstream\nabcdef\nendstream\nendobj\nstartxref".toUTF8.data
+
+example : (match XrefTable.readXrefAt textEnv (fun _ => .ok ⟨[1, 1, 1], [0, 2]⟩) (fun _ _ => .ok [0, 0, 255, 1, 16, 0]) false
+      xrefStmSample 0 with
+    | .ok (secs, _) => secs | _ => []) = [⟨0, [.free 0 255, .raw 16 0]⟩] := by decide +kernel
 
 end C01
